@@ -191,12 +191,12 @@ class Driver:
         from pyatv.storage.file_storage import FileStorage
         return FileStorage(path, self.loop)
 
-    def config(self, cfg):
+    def config(self, cfg, addr="10.0.0.1", name="dev"):
         from pyatv.conf import AppleTV, ManualService
         from pyatv.const import Protocol
         pm = {"airplay": Protocol.AirPlay, "companion": Protocol.Companion, "dmap": Protocol.DMAP,
               "mrp": Protocol.MRP, "raop": Protocol.RAOP}
-        c = AppleTV(IPv4Address("10.0.0.1"), "dev")
+        c = AppleTV(IPv4Address(addr), name)
         for s in cfg:
             c.add_service(ManualService(s["id"], pm[s["p"]], 7000, {}, credentials=s["cr"], password=s["pw"],
                                         enabled=s.get("en", True)))
@@ -217,6 +217,106 @@ class Driver:
         for sec, _ in self.sections:
             out.append((sec, [(k, canon(v)) for k, v in dict(self.sub(obj, sec)).items()]))
         return out
+
+
+class Spy:
+    """What pyatv.scan / connect / pair get as `storage`: the real storage, with every get_settings
+    call (configuration object -> returned settings object) noted."""
+
+    def __init__(self, real):
+        self.real = real
+        self.calls = []
+
+    async def get_settings(self, config):
+        obj = await self.real.get_settings(config)
+        self.calls.append((config, obj))
+        return obj
+
+    def __getattr__(self, name):
+        return getattr(self.real, name)
+
+
+class Glue:
+    """Replaces, inside the pyatv package namespace, what would touch the network: the four scanner
+    classes (their discover() returns prepared configurations), the facade and the protocol table
+    used by connect()/pair().  Everything between - the filtering, get_settings, apply - is real."""
+
+    def __init__(self, discovered=None):
+        self.discovered = discovered or []
+        self.facades = []
+        self.cores = []
+
+    def __enter__(self):
+        import pyatv
+        glue = self
+
+        class FakeScanner:
+            def __init__(self, *a, **kw):
+                pass
+
+            def add_service_info(self, *a, **kw):
+                pass
+
+            def add_service(self, *a, **kw):
+                pass
+
+            async def discover(self, timeout):
+                return {c.address: c for c in glue.discovered}
+
+        class FakeFacade:
+            def __init__(self, config, session_manager, core_dispatcher, settings):
+                self.config, self.settings = config, settings
+                glue.facades.append(self)
+
+            def add_protocol(self, setup_data):
+                pass
+
+            async def connect(self):
+                pass
+
+            def close(self):
+                return set()
+
+            def takeover(self, *a, **kw):
+                pass
+
+        class FakeMethods:
+            @staticmethod
+            def setup(core):
+                return []
+
+            @staticmethod
+            def pair(core, **kw):
+                glue.cores.append(core)
+                return core
+
+        self.saved = {n: getattr(pyatv, n) for n in (
+            "MulticastMdnsScanner", "UnicastMdnsScanner", "ZeroconfMulticastScanner", "ZeroconfUnicastScanner",
+            "FacadeAppleTV", "PROTOCOLS")}
+        self.real_protocols = pyatv.PROTOCOLS
+        for n in ("MulticastMdnsScanner", "UnicastMdnsScanner", "ZeroconfMulticastScanner", "ZeroconfUnicastScanner"):
+            setattr(pyatv, n, FakeScanner)
+        self.fake_methods = FakeMethods
+        self.fake_facade = FakeFacade
+        return self
+
+    def for_connect(self):
+        import pyatv
+        pyatv.FacadeAppleTV = self.fake_facade
+        pyatv.PROTOCOLS = {p: self.fake_methods for p in self.real_protocols}
+
+    def __exit__(self, *a):
+        import pyatv
+        for n, v in self.saved.items():
+            setattr(pyatv, n, v)
+        return False
+
+
+class _Session:
+    """stands in for the aiohttp session handed to connect()/pair(); never used"""
+
+    async def close(self):
+        pass
 
 
 class Fault:
@@ -355,7 +455,9 @@ class Hist:
         self.init_canon = file_content(self.path)
         self.st = drv.storage(kind, self.path)
         self.handles = []           # every Settings object seen, in creation order
-        self.ops = []               # concrete ops
+        self.ops = []               # the history in the model's operations
+        self.rops = []              # the history as executed (replayable): glue calls appear as themselves
+        self.ties = []
         self.obs = []
         self.errors = []            # (key, what)
         self.last = []              # contents at the last save/load (oracle for `changed`)
@@ -433,8 +535,11 @@ class Hist:
             sec = dict(cont.get(s["p"], []))
             for attr, key, orig in (("credentials", "credentials", s["cr"]), ("password", "password", s["pw"])):
                 got = getattr(svc, attr)
-                if got != orig and got != sec.get(key):
+                stored = sec.get(key)
+                if got != orig and got != stored:
                     self.err("C14:apply:foreign-credentials", "%s applied to the %s service comes neither from the configuration nor from its own settings" % (attr, s["p"]))
+                elif isinstance(stored, str) and stored and got != stored:
+                    self.err("C14:apply:stored-credentials-not-applied", "%s stored for the %s service of this device is not what the configuration ends up with" % (attr, s["p"]))
 
     def judge_changed(self):
         want = self.contents() != self.last
@@ -548,6 +653,11 @@ class Hist:
                 obs = ("unit",)
             elif k == "changed":
                 obs = ("bool", bool(st.changed))
+            elif k in ("pyscan", "pyconnect", "pypair"):
+                self.glue(o)
+                self.rops.append(o)
+                self.judge_changed()
+                return
             else:
                 raise ValueError(k)
         except Exception as ex:
@@ -557,8 +667,98 @@ class Hist:
             obs = ("raise", name)
         self.learn()
         self.ops.append(o)
+        self.rops.append(o)
         self.obs.append(obs)
         self.judge_changed()
+
+    # ---- the glue: pyatv.scan / connect / pair with this storage (no network)
+    def glue(self, o):
+        """Runs the real pyatv.scan / connect / pair; what they do to the storage and to the
+        configurations is entered into the history as the equivalent get / scan operations."""
+        import pyatv
+        from pyatv.const import Protocol
+        drv = self.drv
+        pm = {"airplay": Protocol.AirPlay, "companion": Protocol.Companion, "dmap": Protocol.DMAP,
+              "mrp": Protocol.MRP, "raop": Protocol.RAOP}
+        spy = Spy(self.st)
+        before = list(self.st.settings)
+        k = o["op"]
+        if k == "pyscan":
+            cfgs = o["devices"]
+            confs = [drv.config(c, "10.0.1.%d" % (i + 1), "dev%d" % i) for i, c in enumerate(cfgs)]
+            flt = o.get("identifier")
+            arg = set(flt) if isinstance(flt, list) else flt
+            wanted = [i for i, c in enumerate(cfgs)
+                      if any(s["id"] is not None for s in c)
+                      and (not flt or set(flt if isinstance(flt, list) else [flt]) & {s["id"] for s in c if s["id"] is not None})]
+            with Glue(confs):
+                res = drv.run(pyatv.scan(drv.loop, timeout=0, identifier=arg, storage=spy,
+                                         hosts=["10.0.1.1"] if o.get("unicast") else None))
+            self.learn()
+            got = []
+            for r in res:
+                idx = [i for i, c in enumerate(confs) if c is r]
+                got.append(idx[0] if idx else None)
+            if got != wanted:
+                self.ties.append({"what": "pyatv.scan returned other configurations than the ready / matching ones",
+                                  "returned": got, "expected": wanted})
+            for i, (c, conf) in enumerate(zip(cfgs, confs)):
+                if i in got:
+                    self.enter_applied(c, conf, conf, spy, before)
+                else:
+                    for s, svc in zip(c, conf.services):     # a dropped device must not be touched either
+                        if svc.credentials != s["cr"] or svc.password != s["pw"]:
+                            self.err("C14:apply:foreign-credentials", "scan() changed the credentials of a configuration it does not return")
+        elif k == "pyconnect":
+            conf = drv.config(o["cfg"])
+            with Glue() as g:
+                g.for_connect()
+                try:
+                    drv.run(pyatv.connect(conf, drv.loop, session=_Session(), storage=spy))
+                except Exception as ex:
+                    self.enter({"op": "scan", "cfg": o["cfg"]}, ("raise", type(ex).__name__))
+                    return
+            self.learn()
+            for s, svc in zip(o["cfg"], conf.services):
+                if svc.credentials != s["cr"] or svc.password != s["pw"]:
+                    self.err("C14:apply:foreign-credentials", "connect() changed the caller's configuration")
+            self.enter_applied(o["cfg"], conf, g.facades[-1].config if g.facades else conf, spy, before)
+        else:
+            conf = drv.config(o["cfg"])
+            with Glue() as g:
+                g.for_connect()
+                try:
+                    drv.run(pyatv.pair(conf, pm[o["proto"]], drv.loop, session=_Session(), storage=spy))
+                except Exception as ex:
+                    self.enter({"op": "get", "cfg": o["cfg"]}, ("raise", type(ex).__name__))
+                    return
+            self.learn()
+            obj = [x for (c, x) in spy.calls if c is conf]
+            used = g.cores[-1].settings if g.cores else None
+            if not obj or used is not obj[-1]:
+                self.err("C14:lookup:pair-uses-other-settings", "pair() hands the protocol a settings object other than the one stored for the configuration")
+            self.learn(used)
+            self.enter({"op": "get", "cfg": o["cfg"]}, ("handle", self.handle_of(used)))
+            if obj:
+                self.judge_lookup(o["cfg"], conf, obj[-1], before)
+
+    def enter(self, op, obs):
+        self.ops.append(op)
+        self.obs.append(obs)
+
+    def enter_applied(self, cfg, conf, applied, spy, before):
+        """`conf` was resolved through get_settings and the result applied to `applied`."""
+        obj = [x for (c, x) in spy.calls if c is conf]
+        if not obj:
+            self.ties.append({"what": "no get_settings call seen for a configuration that was returned"})
+            return
+        obj = obj[-1]
+        self.enter({"op": "scan", "cfg": cfg},
+                   ("applied", self.handle_of(obj),
+                    [{"p": s["p"], "id": svc.identifier, "cr": svc.credentials, "pw": svc.password, "en": bool(svc.enabled)}
+                     for s, svc in zip(cfg, applied.services)]))
+        self.judge_apply(cfg, applied, obj)
+        self.judge_lookup(cfg, conf, obj, before)
 
     def snapshot(self):
         return {"handles": [self.handle_of(o) for o in self.st.settings],
